@@ -72,6 +72,8 @@ PROFILES = {
                       p_catch=0.4, p_result=0.5),
     "override": dict(BASE, ctx_types=("override", "attr", "async", "oapi"), p_ctx=0.5, nvars=2, p_read=0.5),
     "overridesync": dict(BASE, ctx_types=("override", "attr", "oapi"), p_ctx=0.5, nvars=2, p_read=0.5, p_sync=0.25),
+    "overridenonasync": dict(BASE, ntasks=(3, 7), ctx_types=("override", "attr", "oapi", "nonasync"), p_ctx=0.6, nvars=2, p_read=0.4, nseg=(2, 4),
+                             p_catch=0.4, p_share=0.1),
     "overrideapi": dict(BASE, ntasks=(3, 8), ctx_types=("oapi", "oapi", "override"), p_ctx=0.55, nvars=1, p_read=0.6, p_share=0.3, p_reyield=0.1,
                         nseg=(2, 4)),
     "overridefaults": dict(BASE, ctx_types=("override", "attr"), p_ctx=0.5, nvars=2, p_read=0.4,
@@ -557,6 +559,24 @@ def enum_dedup(max_len=3, bodies=(1, 2), nactors=2, bind="fn", key=1, spell0=0, 
                 tasks[aid - 1] = {"segs": segs}
             tasks[0] = {"segs": [seg([], term("yield", S("Lst", 0, leaves))), seg([], term("return"))]}
             progs.append(program(tasks, kinds=[kind() for _ in range(max(1, body_kind))]))
+    return progs
+
+
+def enum_empties():
+    """Complete small family for C01: structures without any future in them - {}, [], (), None and containers of those -
+    yielded twice in a row by two sibling tasks and by the root (every pair of shapes): what comes back is a fresh
+    structure of the same shape each time, whoever received (and changed) an equal one before."""
+    E = lambda g: S(g, 0, [])
+    shapes = [E("Dct"), E("Lst"), E("Tup"), S("N"), S("Lst", 0, [E("Dct"), E("Dct")]), S("Dct", 0, [E("Dct"), E("Lst")]),
+              S("Tup", 0, [E("Lst"), E("Dct"), S("N")])]
+    progs = []
+    for a, b in itertools.product(shapes, repeat=2):
+        def child():
+            return {"segs": [seg([], term("yield", json.loads(json.dumps(a)))), seg([], term("yield", json.loads(json.dumps(b)))),
+                             seg([], term("return"))]}
+        root = {"segs": [seg([], term("yield", S("Tup", 0, [S("T", 2), S("T", 3)]))), seg([], term("yield", json.loads(json.dumps(a)))),
+                         seg([], term("yield", json.loads(json.dumps(b)))), seg([], term("return"))]}
+        progs.append(program([root, child(), child()]))
     return progs
 
 
